@@ -306,9 +306,12 @@ func runOneCrash(c crCase) (sx.V, sx.V) {
 	}
 	// exited / context
 	exited, ctxDone := false, 0
-	for time.Since(tDeath) < 8*time.Second {
+	for {
 		if cl.Exited() {
 			exited = true
+			break
+		}
+		if time.Since(tDeath) > 8*time.Second {
 			break
 		}
 		time.Sleep(20 * time.Millisecond)
@@ -318,7 +321,7 @@ func runOneCrash(c crCase) (sx.V, sx.V) {
 		select {
 		case <-caller.Ctx().Done():
 			ctxDone = 2
-		case <-time.After(time.Until(tDeath.Add(8 * time.Second))):
+		case <-time.After(time.Until(tDeath.Add(8*time.Second)) + 50*time.Millisecond):
 		}
 	}
 	add(timed(opKill, func() error { cl.Kill(); return nil }))
